@@ -248,7 +248,7 @@ fn gen(ctx: &GenCtx, i: u64, prop: &str) -> Option<Run> {
     let kf_shadowed = prop == "C15" && default_validators && i % 31 == 5;
     for k in 0..nv {
         let keyname = loop {
-            let c = (*r.pick(&["vdata", "vrole", "vabsent", "vnum", "sub", "aud", "jti", "iss", "v/data", "v~1x", "https://example.com/claims/v", "exp", "nbf"])).to_string();
+            let c = (*r.pick(&["vdata", "vrole", "vabsent", "vnum", "sub", "aud", "jti", "iss", "v/data", "v~1x", "https://example.com/claims/v", "exp", "nbf", "iat"])).to_string();
             // the same key may be registered twice (the later registration is the one in force); exp/nbf
             // validators replace the default ones of PasetoParser::default()
             let dup_ok = prop == "C16" && validators.iter().any(|x: &ValidatorSpec| x.claim.key() == c) && r.chance(1, 3);
@@ -267,6 +267,7 @@ fn gen(ctx: &GenCtx, i: u64, prop: &str) -> Option<Run> {
             "iss" => ClaimSpec::Iss(String::new()),
             "exp" => ClaimSpec::Exp("2019-01-01T00:00:00+00:00".into()),
             "nbf" => ClaimSpec::Nbf("2019-01-01T00:00:00+00:00".into()),
+            "iat" => ClaimSpec::Iat("2019-01-01T00:00:00+00:00".into()),
             _ => ClaimSpec::Custom { key: keyname.clone(), value: match r.below(4) { 0 => json!("good"), 1 => json!(7), _ => json!("") } },
         };
         let claim = match (&claim, r.below(3)) {
@@ -363,7 +364,24 @@ fn gen(ctx: &GenCtx, i: u64, prop: &str) -> Option<Run> {
             }
         }
         let needs_core = claims.iter().any(|c| matches!(c, ClaimSpec::Custom { key, .. } if RESERVED.contains(&key.as_str())));
-        let ilayer = if needs_core { Layer::Core } else { random_layer(&mut r) };
+        // one token in eight: authentic JSON that is not an object (no member at all can be present), made of
+        // the very keys and values the verifier looks for
+        let nonobj: Option<Value> = if r.chance(1, 8) {
+            let ks: Vec<Value> = claims.iter().map(|c| json!(c.key())).collect();
+            let kv: Vec<Value> = claims.iter().map(|c| json!({c.key(): c.value()})).collect();
+            Some(match r.below(7) {
+                0 => Value::Array(ks),
+                1 => Value::Array(kv),
+                2 => json!(claims.first().map_or("aud".to_string(), |c| c.key().to_string())),
+                3 => json!(42),
+                4 => json!(true),
+                5 => Value::Null,
+                _ => json!([]),
+            })
+        } else {
+            None
+        };
+        let ilayer = if needs_core || nonobj.is_some() { Layer::Core } else { random_layer(&mut r) };
         let mut payload = serde_json::Map::new();
         for c in &claims {
             payload.insert(c.key().to_string(), c.value());
@@ -380,7 +398,7 @@ fn gen(ctx: &GenCtx, i: u64, prop: &str) -> Option<Run> {
             assertion: assertion.clone(),
             now,
             message: String::new(),
-            json_payload: Some(Value::Object(payload)),
+            json_payload: Some(nonobj.clone().unwrap_or(Value::Object(payload))),
             extra_claims: vec![],
         };
         // builder layers: set the claims through their typed constructors instead of a JSON payload
